@@ -72,7 +72,9 @@ SPEC = {
                  "cq_param_cry_assembled", "cq_param_crx_assembled", "cq_param_cu3_assembled", "cq_param_ccry_assembled",
                  "cq_param_ccrx_assembled", "cq_ccrz_template_is_ccu1", "cq_csdg_of_angle", "cq_ctdg_of_angle",
                  "cq_equiv_partial", "cq_equiv_phase_partial", "cq_equiv_term_partial", "cq_equiv_term_total", "cq_equiv_cond_term_partial", "cq_equiv_cond_term_total",
-                 "cq_equiv_measure_all_partial", "cq_equiv_density_partial", "cq_measure_all_is_value_lines", "cq_instr_is_value_line", "cq_gateMatrix_of_values", "cq_equiv_gate_partial", "cq_equiv_cond_partial", "cq_equiv_measure_partial", "cq_equiv_prep_partial",
+                 "cq_equiv_measure_all_partial", "cq_equiv_density_partial", "cq_measure_all_is_value_lines",
+                 "cq_text_assembly", "cq_text_lib_lines", "cq_text_term", "cq_text_cond_term", "cq_text_partial",
+                 "cq_equiv_text_partial", "cq_reads_back_satisfiable", "cq_instr_is_value_line", "cq_gateMatrix_of_values", "cq_equiv_gate_partial", "cq_equiv_cond_partial", "cq_equiv_measure_partial", "cq_equiv_prep_partial",
                  "cq_equiv_barrier_partial", "cq_values_are_cq1_semantics",
                  "templates_as_modelled", "cq_const1_plain",
                  "cq_const1_conditional", "cq_const2_plain", "cq_const2_conditional", "cq_const_multi_plain",
@@ -109,15 +111,22 @@ SPEC = {
 def run(ctx):
     vlib.standard_flow(ctx, SPEC)
     ctx.assumptions += [
-        "cq_equiv_*_partial are proved for whole circuits on VALUE-level statements (dSeq = the semantics of Spec/CQ1 on statements given "
-        "by matrices), for the per-operation class FaithfulOpM: gates whose term satisfies termOK (25 exact library gates, V Vdg U1 CU3 "
-        "up to a unit factor, Kron of one-line gates, Composite, Loop not inside a Loop) on valid placements; CONDITIONAL gate terms "
-        "whose library leaves all have a ONE-line translation (condTermOK: Kron / Composite / Loop in any nesting, also V Vdg U1), on a "
-        "non-empty control list without repetition in range and a target below 2^len (a multi-line leaf under a condition is the known "
-        "finding and is excluded); measure X/Y/Z of qubit q into bit q; reset; barrier; measure_all in Z into bits 0..n-1 (up to a "
-        "permutation of the branch list, for the non-zero test that keeps every branch). cq_equiv_density_partial states it per "
-        "register word as equality of densities. NOT proved: that the parsed TEXT is that statement list for every exported line "
-        "(see the text-link assumption below), CSdg CTdg (decimal literals), measure_all in X/Y (known finding): checked by (B) on every run",
+        "cq_equiv_text_partial is the FULL statement (the exported text parses, is well formed, and per register word has the density of "
+        "the circuit's Born branches) on the decidable class classOp: 0 < nq <= 64; gates whose term satisfies termOK (25 exact library "
+        "gates, V Vdg U1 CU3 up to a unit factor, Kron of one-line gates, Composite, Loop not inside a Loop) and gateSound, on valid "
+        "placements; CONDITIONAL gate terms whose library leaves all have a ONE-line translation (condTermOK: Kron / Composite / Loop in "
+        "any nesting, also V Vdg U1), on a non-empty control list without repetition in range and a target below 2^len (a multi-line leaf "
+        "under a condition is the known finding and is excluded); measure X/Y/Z of qubit q into bit q; reset; barrier; measure_all in Z "
+        "into bits 0..n-1. It is proved for the non-zero test that keeps EVERY branch (zero-weight branches are kept on both sides; the "
+        "driver's non-zero test drops them: the densities are the same, checked by (B)), in an abstract lawful trigonometric context "
+        "(model: the complex numbers). Outside the class - CSdg CTdg (decimal literals), measure_all in X/Y (known finding), reset_all, "
+        "reference parameters, the gates without a good template - (B) checks the statement on every run",
+        "the text link assumes ReadsBack N S val of the number printer / reader (extends GoodNum): parsing a printed number with Spec/CQ1 "
+        "and reading it with S gives the number's value (round trip of f64::to_string / parse); an evaluated hole of a good template "
+        "evaluates (C14 evaluator) to a number whose value is the exact product the hole denotes (0.5*x = x/2, 0.25*x = x/4, sums: "
+        "holeVal - exact for binary floating point up to underflow, and (B) compares numerically); crk 1, crk 2 are i and e^{i pi/4}. "
+        "Satisfiable: cq_reads_back_satisfiable (one-number printer over the complex numbers; all hole shapes of the generated table "
+        "are the ones holeVal reads: kernel-checked), with a 12-operation circuit instance (text_equiv_example)",
         "cq_wellformed_partial assumes GoodNum of the number printer: f64::to_string prints one decimal literal (false for NaN / inf) and "
         "the C14 expression evaluator accepts the evaluated holes of the generated templates with printed numbers for the parameters "
         "(an unevaluated hole would stay in the text and is caught by (A) and (B)); non-vacuous: unitNum_good",
